@@ -219,47 +219,35 @@ theorem chain_first (c : Cfg) (ops : List Op) (b : Batch) (h : (run c ops).1[0]?
     simp only [hbs, checkChain, Bool.and_eq_true, beq_iff_eq] at this
     exact ⟨this.1.1, this.1.2⟩
 
-/- Full strength (what C14 demands of the ConfigMap data):
-
-     theorem configmap_delivered (c ops k b w) :
-       (run c ops).1[k]? = some b → (windows (accepts c) ops).1[k]? = some w →
-       b.gNew = specNew true w ∧ b.tNew = specNew false w
-
-   FALSE for the current code: a ConfigMap whose `.Data` is nil (all keys removed) is written as a
-   nil `…New`, which the converters read as "unchanged" (`configmap_emptied_not_delivered`).
-   Proved under the side condition that the last ConfigMap event of the window carries data. -/
-theorem configmap_delivered_partial (c : Cfg) (ops : List Op) (k : Nat) (b : Batch) (w : List Event)
-    (hb : (run c ops).1[k]? = some b) (hw : (windows (accepts c) ops).1[k]? = some w)
-    (hd : ∀ g e, lastSet g w = some e → e.data.isSome) :
+/-- **ConfigMap data is delivered.**  `…New` of a batch is the data of the last ConfigMap event of
+its window — an emptied ConfigMap (nil `.Data`) being announced as EMPTY data, not as "unchanged" —
+and nil when the window has no such event.  (Full strength since the repair f69446d of `cmChange`.) -/
+theorem configmap_delivered (c : Cfg) (ops : List Op) (k : Nat) (b : Batch) (w : List Event)
+    (hb : (run c ops).1[k]? = some b) (hw : (windows (accepts c) ops).1[k]? = some w) :
     b.gNew = specNew true w ∧ b.tNew = specNew false w := by
   obtain ⟨w', hw', _, _, _, _, _, _, hg, ht⟩ := batch_is_its_window c ops k b hb
   rw [hw] at hw'; cases hw'
   rw [hg, ht, newData_eq_last, newData_eq_last]
   unfold specNew
-  constructor
-  · cases h : (w.filter (setsCm true)).getLast? with
-    | none => rfl
-    | some e =>
-      have := hd true e h
-      cases hdata : e.data with
-      | none => simp [hdata] at this
-      | some d => simp [hdata]
-  · cases h : (w.filter (setsCm false)).getLast? with
-    | none => rfl
-    | some e =>
-      have := hd false e h
-      cases hdata : e.data with
-      | none => simp [hdata] at this
-      | some d => simp [hdata]
+  exact ⟨rfl, rfl⟩
 
-/-- counter-example (known finding `configmap-emptied-update-not-delivered`): the global ConfigMap
-is created with data 3 and later updated to nil data; the batch after the update carries
-`GlobalConfigMapDataNew = nil`, `Cur = 3`, and so does every later batch: the old data stays current. -/
-theorem configmap_emptied_not_delivered :
+/-- the emptied ConfigMap now reaches the reconciliation: data 3, then nil data ⇒ the second batch
+announces empty data (`some 0`) and the third has it as current -/
+theorem configmap_emptied_delivered :
     let ops := [Op.ev { id := 0, kind := .cm, typ := .create, ns := some 0, name := 0, data := some 3 }, .swap,
                 Op.ev { id := 2, kind := .cm, typ := .update, ns := some 0, name := 0, data := none }, .swap, .swap]
-    ((run {} ops).1.map fun b => (b.gCur, b.gNew)) = [(none, some 3), (some 3, none), (some 3, none)] ∧
+    ((run {} ops).1.map fun b => (b.gCur, b.gNew)) = [(none, some 3), (some 3, some 0), (some 0, none)] ∧
     (windows (accepts {}) ops).1.map (specNew true) = [some 3, some 0, none] := by
+  decide
+
+/-- historical witness (fixed: f69446d, oracle clause `configmap-emptied-update-not-delivered`):
+`cmChange` before the repair stored the nil map, i.e. "unchanged", so the old data 3 stayed
+current; the repaired step announces empty data -/
+theorem configmap_emptied_not_delivered_old :
+    let b : Batch := { gCur := some 3 }
+    let e : Event := { id := 2, kind := .cm, typ := .update, ns := some 0, name := 0, data := none }
+    (applyCmOld b e).gNew = none ∧ pick (applyCmOld b e).gNew b.gCur = some 3 ∧
+    (applyCm b e).gNew = some 0 ∧ pick (applyCm b e).gNew b.gCur = some 0 := by
   decide
 
 /-! ## (3) class transitions -/
@@ -349,7 +337,7 @@ example : accepts {} { id := 0, kind := .ing, typ := .update, ns := some 0, name
 /-- the parts of watchers.go the model depends on syntactically: every handler entry point and
 `getChangedObjects` take `watchers.mu` first; Create/Update/Delete call the closure, `compose`
 with the literal `add`/`update`/`del`, then `notify`; `compose` de-duplicates; `initCh` carries
-the two `…Cur` fields -/
+the two `…Cur` fields; `cmChange` stores `data`, which is `cm.Data` with nil replaced by an empty map -/
 theorem facts_c14 :
     Facts.c14CreateCalls = ["h.w.mu.Lock", "h.w.mu.Unlock", "h.add", "h.compose", "h.notify"] ∧
     Facts.c14UpdateCalls = ["h.w.mu.Lock", "h.w.mu.Unlock", "h.upd", "h.compose", "h.notify"] ∧
@@ -362,7 +350,8 @@ theorem facts_c14 :
       "newch.TCPConfigMapDataCur=w.ch.TCPConfigMapDataNew",
       "newch.TCPConfigMapDataCur=w.ch.TCPConfigMapDataCur",
       "w.ch=newch", "w.ch.Links=?"] ∧
-    Facts.c14CmChangeAssigns = ["w.ch.GlobalConfigMapDataNew=cm.Data", "w.ch.TCPConfigMapDataNew=cm.Data"] := by
+    Facts.c14CmChangeAssigns = ["w.ch.GlobalConfigMapDataNew=data", "w.ch.TCPConfigMapDataNew=data"] ∧
+    Facts.c14CmNilDataBecomesEmpty = true := by
   decide
 
 end HapVerif.C14
